@@ -87,6 +87,7 @@ static const char *opt_out, *opt_replay, *opt_tmp = "/verif/build/tmp",
 static double t_start;
 static int cur_cfg;
 static int cur_bound[5];
+static int force_errfd;
 
 static double now_s(void)
 {
@@ -133,7 +134,7 @@ static int run_exec(abtmc_xrec *xr, int cfg, const abtmc_dev *dev, int ndev,
         exit(2);
     }
     if (pid == 0) {
-        if (errfd >= 0 && !trace) {
+        if (errfd >= 0 && (!trace || force_errfd)) {
             if (ftruncate(errfd, 0)) {
             }
             lseek(errfd, 0, SEEK_SET);
@@ -698,12 +699,24 @@ int abtmc_main(int argc, char **argv, const abtmc_driver *d)
             fprintf(stderr, "bad config %d\n", cfg);
             return 2;
         }
+        int trace_first_fd = -1;
+        if (getenv("ABTMC_TRACE_FIRST"))
+            trace_first_fd = open(getenv("ABTMC_TRACE_FIRST"),
+                                  O_RDWR | O_CREAT | O_TRUNC, 0644);
         char path[256];
         snprintf(path, sizeof(path), "%s/replay.err.%d", opt_tmp, (int)getpid());
         int errfd = open(path, O_RDWR | O_CREAT | O_TRUNC, 0644);
         unlink(path);
         abtmc_xrec *xr = XR[0];
-        int st0 = run_exec(xr, cfg, dev, ndev, bound, horizon, 0, 1, 0, errfd,
+        int st0;
+        if (trace_first_fd >= 0) {
+            /* debugging aid: trace the first replay into a file as well */
+            force_errfd = 1;
+            st0 = run_exec(xr, cfg, dev, ndev, bound, horizon, 0, 1, 1,
+                           trace_first_fd, opt_wall * 5);
+            force_errfd = 0;
+        } else
+            st0 = run_exec(xr, cfg, dev, ndev, bound, horizon, 0, 1, 0, errfd,
                            opt_wall * 5);
         uint64_t h0 = xr->tracehash;
         uint64_t th0[ABTMC_MAXT], to0[ABTMC_MAXT];
